@@ -8,6 +8,7 @@ import (
 	"sort"
 	"strconv"
 	"strings"
+	"time"
 
 	configapi "github.com/onosproject/onos-api/go/onos/config/v2"
 	cfgctl "github.com/onosproject/onos-config/pkg/controller/v2/configuration"
@@ -520,6 +521,27 @@ func (e *Exec) classifyStranded() string {
 	return "deadlock"
 }
 
+// retryPossiblyPending tells whether a controller task failed at a store write or a device request within the last
+// window: its retry may still be sitting in the controller's back-off, i.e. the controllers may have pending work
+// and the premise of the fixed-point clause does not hold
+func (e *Exec) retryPossiblyPending(window time.Duration) bool {
+	now := e.W.NowMs()
+	evs := e.W.Events()
+	for i := len(evs) - 1; i >= 0; i-- {
+		ev := evs[i]
+		if now-ev.AtMs > window.Milliseconds() {
+			break
+		}
+		if ev.OK || strings.HasPrefix(ev.Task, "handler:") || strings.HasPrefix(ev.Task, "watcher:") || ev.Task == "" {
+			continue
+		}
+		if strings.HasPrefix(ev.Kind, "prop.") || strings.HasPrefix(ev.Kind, "cfg.") || strings.HasPrefix(ev.Kind, "tx.") || ev.Kind == "dev.Set" || strings.HasPrefix(ev.Kind, "topo.") {
+			return true
+		}
+	}
+	return false
+}
+
 // FixedPoint checks C09's first clause on a settled execution: re-examining every object changes nothing
 func (e *Exec) FixedPoint(j *Judgement) {
 	if e.IdleFinding != "" {
@@ -528,11 +550,20 @@ func (e *Exec) FixedPoint(j *Judgement) {
 	if !e.GoalReached {
 		return
 	}
+	// the goal predicate can hold between two writes of one reconcile step (e.g. a proposal recorded FAILED, its
+	// configuration's applied index not yet advanced): let steps that are in flight finish first
+	e.waitQuiet(400*time.Millisecond, 10*time.Second)
+	pending := e.retryPossiblyPending(6 * time.Second)
 	before := StateString(e.Snapshot())
 	reqs := e.devReqs()
 	e.ReconcileEverything()
 	after := StateString(e.Snapshot())
 	e.C.Count("fixed_point_passes", 1)
+	if (before != after || e.devReqs() != reqs) && pending {
+		// a failed attempt of a controller is recent enough for its retry to be still waiting: not judged
+		e.C.Count("fixed_point_passes_not_judged_retry_possibly_pending", 1)
+		return
+	}
 	if before != after || e.devReqs() != reqs {
 		j.add("fixpoint", []string{"C09"}, "fixpoint/not-a-fixed-point", "the controllers were idle but re-examining the objects changed the state:\n before %s\n after  %s", before, after)
 	}
